@@ -136,7 +136,7 @@ pub fn run(c: &Ctx) {
     // (clean knows nothing about schemes, home symbols or variables)
     {
         let mut deep: Vec<String> = vec![];
-        for n in [200usize, 255, 256, 257, 300, 513, 1000] {
+        for n in [200usize, 255, 256, 257, 300, 513, 1000, 4000] {
             let names = vec!["a"; n].join("/");
             let ups = vec![".."; n].join("/");
             deep.push(names.clone());
@@ -149,7 +149,9 @@ pub fn run(c: &Ctx) {
             deep.push(ups.clone());
             deep.push(format!("{}/a/..", ups));
             deep.push(format!("{}/{}", ups, names));
-            deep.push(vec!["a/./b/.."; n].join("//"));
+            if n <= 1000 {
+                deep.push(vec!["a/./b/.."; n].join("//"));
+            }
         }
         for pre in ["http://", "https://", "file://", "ftp://", "HTTP://", "File://", "ntp://", "~/", "$HOME/", "${X}/"] {
             for rest in ["foo", "..", "a/..", "a/../..", "./a//b/", "", "/"] {
@@ -165,6 +167,43 @@ pub fn run(c: &Ctx) {
             c.class("deep-or-scheme-like");
             mark("clean", &s.chars().take(200).collect::<String>());
             c.judge("clean", s, check_clean(s));
+        });
+    }
+    // more components than a 16-bit counter holds; the expected result is known by construction (the general oracle
+    // is quadratic in the number of components)
+    {
+        let n = 66_000usize;
+        let names = vec!["a"; n].join("/");
+        let ups = vec![".."; n].join("/");
+        let shorter = vec!["a"; n - 1].join("/");
+        let cases: Vec<(String, String)> = vec![
+            (names.clone(), names.clone()),
+            (format!("/{}", names), format!("/{}", names)),
+            (format!("{}/..", names), shorter.clone()),
+            (format!("/{}/../", names), format!("/{}", shorter)),
+            (format!("{}/../../..", names), vec!["a"; n - 3].join("/")),
+            (format!("{}/..", vec!["a"; 65_536].join("/")), vec!["a"; 65_535].join("/")),
+            (format!("/{}/../x", vec!["a"; 65_536].join("/")), format!("/{}/x", vec!["a"; 65_535].join("/"))),
+            (ups.clone(), ups.clone()),
+            (format!("{}/a/..", ups), ups.clone()),
+            (format!("./{}//", names), names.clone()),
+        ];
+        par_for(cases.len() as u64, 1, |i| {
+            let (input, want) = &cases[i as usize];
+            c.eval(1);
+            c.nontrivial(fp(&("huge", i)));
+            c.class("more-than-65535-components");
+            mark("clean", &format!("huge case {}", i));
+            let got = crate::engine::catch(|| rivia::sys::clean(input));
+            let res = match got {
+                Err(_) => Err(Failure::new("clean|panic|huge", format!("clean of {} bytes (case {}) panicked", input.len(), i))),
+                Ok(g) if g.as_os_str().as_encoded_bytes() != want.as_bytes() => {
+                    let gs = g.to_string_lossy();
+                    Err(Failure::new("clean|wrong|huge", format!("clean of {} bytes (case {}): got {} bytes ending {:?}, want {} bytes ending {:?}", input.len(), i, gs.len(), &gs[gs.len().saturating_sub(12)..], want.len(), &want[want.len().saturating_sub(12)..])))
+                }
+                Ok(_) => Ok(()),
+            };
+            c.judge("clean", &format!("huge case {}", i), res);
         });
     }
     // byte strings that are not valid UTF-8: every sequence over {'/', '.', 'a', 0xE9, 0xFF} up to length 6 / 7
